@@ -20,6 +20,8 @@ pub struct BehaviourSpec<'a> {
     pub filters: Vec<fn(&Block) -> Option<&'static str>>,
     /// extra non-triviality requirement on the generator's statistics
     pub nontrivial: &'a (dyn Fn(&crate::gen::progen::GenStats) -> bool + Sync),
+    /// the property claims plain Lua output (C06): see `behave::OrigRun::lua51_target`
+    pub lua51_target: bool,
 }
 
 pub fn plain_cfg(d: Dialect) -> crate::luaref::Config {
@@ -37,7 +39,12 @@ pub fn print_program(t: &mut Tape, block: &Block, luau: bool) -> String {
 }
 
 pub fn check_one(source: &str, config: &str) -> Result<Verdict, String> {
-    let orig = behave::run_original(source, &plain_cfg)?;
+    check_one_target(source, config, false)
+}
+
+pub fn check_one_target(source: &str, config: &str, lua51_target: bool) -> Result<Verdict, String> {
+    let mut orig = behave::run_original(source, &plain_cfg)?;
+    orig.lua51_target = lua51_target;
     let (v, _) = behave::check_rules(source, config, &orig, &plain_cfg);
     Ok(v)
 }
@@ -56,10 +63,14 @@ pub fn run_behaviour(ctx: &RunCtx, phase: &str, spec: &BehaviourSpec) {
         for (k, v) in &prog.stats {
             st.class_n(k, *v as u64);
         }
-        let orig = match behave::run_original(&source, &plain_cfg) {
+        let mut orig = match behave::run_original(&source, &plain_cfg) {
             Ok(o) => o,
             Err(e) => return CaseResult::Fail(Failure::new(e, json!({"kind": "harness", "source": source}))),
         };
+        orig.lua51_target = spec.lua51_target;
+        if spec.lua51_target && orig.luau.is_some() && orig.luau_only && orig.luau_dialect_events == [0, 0] {
+            st.class("original_dialect_independent");
+        }
         if orig.lua51.is_none() && orig.luau.is_none() {
             return CaseResult::Discard("original errors or exceeds the step budget");
         }
@@ -67,7 +78,10 @@ pub fn run_behaviour(ctx: &RunCtx, phase: &str, spec: &BehaviourSpec) {
         for config in &configs {
             let (v, out) = behave::check_rules(&source, config, &orig, &plain_cfg);
             match v {
-                Verdict::Same { emits, .. } => {
+                Verdict::Same { emits, dialects } => {
+                    if orig.luau_only && dialects == 2 {
+                        st.class("output_also_run_as_lua51");
+                    }
                     if emits >= 1 && (spec.nontrivial)(&prog.stats) && out.as_deref().map(|o| behave::code_changed(&source, o)).unwrap_or(false) {
                         st.class("nontrivial_config");
                         nontrivial = Some(hash_parts(&[source.as_bytes(), config.as_bytes()]));
@@ -77,7 +91,7 @@ pub fn run_behaviour(ctx: &RunCtx, phase: &str, spec: &BehaviourSpec) {
                 Verdict::Differs(msg) => {
                     return CaseResult::Fail(Failure::new(
                         format!("{}\n--- configuration\n{}\n--- source\n{}\n--- output\n{}", msg, config, source, out.unwrap_or_default()),
-                        json!({"kind": "behaviour", "source": source, "config": config}),
+                        json!({"kind": "behaviour", "source": source, "config": config, "lua51_target": spec.lua51_target}),
                     ));
                 }
             }
@@ -90,7 +104,8 @@ pub fn run_behaviour(ctx: &RunCtx, phase: &str, spec: &BehaviourSpec) {
 pub fn replay_behaviour(v: &Value) -> Result<(), String> {
     let source = v.get("source").and_then(|s| s.as_str()).ok_or("malformed replay: no source")?;
     let config = v.get("config").and_then(|s| s.as_str()).ok_or("malformed replay: no config")?;
-    match check_one(source, config)? {
+    let target = v.get("lua51_target").and_then(|b| b.as_bool()).unwrap_or(false);
+    match check_one_target(source, config, target)? {
         Verdict::Differs(m) => Err(m),
         _ => Ok(()),
     }
@@ -126,7 +141,8 @@ pub fn minimize_source(v: &Value, still_fails: &dyn Fn(&str, &Value) -> bool) ->
 pub fn minimize_behaviour(v: &Value) -> Option<Value> {
     minimize_source(v, &|text, v| {
         let config = v.get("config").and_then(|c| c.as_str()).unwrap_or("{}");
-        matches!(check_one(text, config), Ok(Verdict::Differs(_)))
+        let target = v.get("lua51_target").and_then(|b| b.as_bool()).unwrap_or(false);
+        matches!(check_one_target(text, config, target), Ok(Verdict::Differs(_)))
     })
 }
 
